@@ -160,6 +160,43 @@ static const coap_dtls_spsk_info_t *cb_sni(const char *sni, coap_session_t *s, v
   return NULL;
 }
 
+/* ------------------------------------------------------------------ client addresses
+ * The kernel hands out ephemeral ports; a later client of the same case (op K) could be given the
+ * port of an earlier one, and the server would then take its ClientHello for traffic of the old
+ * session.  Which port the kernel picks depends on what else runs on the machine, so the driver
+ * picks the local address itself: a port that is free now and was not used earlier in this case. */
+static uint16_t g_used_port[64];
+static int g_nused_port;
+static int pick_local(coap_address_t *a) {
+  int held[16], nheld = 0, ok = 0;
+  for (int tries = 0; tries < 16 && !ok; tries++) {
+    int fd = socket(AF_INET, SOCK_DGRAM, 0);
+    struct sockaddr_in sa;
+    socklen_t sl = sizeof(sa);
+    memset(&sa, 0, sizeof(sa));
+    sa.sin_family = AF_INET;
+    sa.sin_addr.s_addr = htonl(VN_LOOPBACK);
+    if (fd < 0 || bind(fd, (struct sockaddr *)&sa, sizeof(sa)) < 0 ||
+        getsockname(fd, (struct sockaddr *)&sa, &sl) < 0) {
+      if (fd >= 0) close(fd);
+      break;
+    }
+    uint16_t port = ntohs(sa.sin_port);
+    int seen = 0;
+    for (int i = 0; i < g_nused_port; i++) seen |= g_used_port[i] == port;
+    if (seen) {
+      held[nheld++] = fd;            /* keep it occupied while looking for another one */
+      continue;
+    }
+    close(fd);
+    vn_addr4(a, VN_LOOPBACK, port);
+    if (g_nused_port < 64) g_used_port[g_nused_port++] = port;
+    ok = 1;
+  }
+  for (int i = 0; i < nheld; i++) close(held[i]);
+  return ok;
+}
+
 /* ------------------------------------------------------------------ names */
 static const char *sname(const coap_session_t *s) {
   if (s && s->type == COAP_SESSION_TYPE_CLIENT) return "c";
@@ -432,6 +469,7 @@ static void run_case(void) {
   g_npend = 0;
   g_cs = g_ss = g_ss_dying = NULL;
   g_have_caddr = 0;
+  g_nused_port = 0;
   memset(g_req, 0, sizeof(g_req));
   if (vntok < 13) {
     printf("ERROR short case\n");
@@ -498,7 +536,9 @@ static void run_case(void) {
         cp.psk_info.key.length = ckl;
         cp.client_sni = (char *)csni;
         if (t_cih.present) cp.validate_ih_call_back = cb_ih;
-        g_cs = coap_new_client_session_psk2(g_cli, NULL, &g_ep->bind_addr, COAP_PROTO_DTLS, &cp);
+        coap_address_t la;
+        int have_la = pick_local(&la);
+        g_cs = coap_new_client_session_psk2(g_cli, have_la ? &la : NULL, &g_ep->bind_addr, COAP_PROTO_DTLS, &cp);
       } else
         g_cs = coap_new_client_session(g_cli, NULL, &g_ep->bind_addr, COAP_PROTO_UDP);
       if (!g_cs) {
